@@ -87,7 +87,7 @@ impl Property for C02 {
             real: &["src/cache.rs", "src/local_cache.rs", "src/anycache.rs", "src/key.rs", "src/utils/private.rs", "src/asset.rs, src/dirs.rs (the loads behind each operation)"],
             stub: &["Source (in-memory tree; edits between operations)", "shard locks (detsim; uncontended here), hash seeds, shard count knob", "the reloader thread exists for the hot front-end but receives no notification"],
             assumptions: &["sequential histories executed in lock-step on AssetCache (hot), AssetCache::without_hot_reloading and LocalAssetCache, each directly and through an AnyCache view, compared operation by operation with one map model; concurrency on single keys is C01's subject"],
-            runs: (12_000, 600_000),
+            runs: (80_000, 2_500_000),
         }
     }
     fn generate(&self, g: &mut SplitMix, k: &mut SplitMix, _tier: Tier) -> (Knobs, Value) {
